@@ -45,6 +45,7 @@ type stats struct {
 	Classes       map[string]int     `json:"classes"`
 	Samples       []string           `json:"samples"`
 	KnownHits     map[string]int     `json:"known_hits"`
+	KnownSamples  map[string]string  `json:"known_samples"`
 	Floors        map[string]float64 `json:"floors"`
 	FloorFailures []string           `json:"floor_failures"`
 	Extra         map[string]any     `json:"extra"`
@@ -87,7 +88,7 @@ func getStats(prop, rule string) *stats {
 	defer allStatsMu.Unlock()
 	s := allStats[prop]
 	if s == nil {
-		s = &stats{Property: prop, Rule: rule, Classes: map[string]int{}, KnownHits: map[string]int{},
+		s = &stats{Property: prop, Rule: rule, Classes: map[string]int{}, KnownHits: map[string]int{}, KnownSamples: map[string]string{},
 			Floors: map[string]float64{}, Extra: map[string]any{}, digestSet: map[string]struct{}{}}
 		allStats[prop] = s
 	}
@@ -224,6 +225,13 @@ func (c *Case) Violation(sig string, format string, args ...any) bool {
 		if k.Property == c.prop && k.Signature == sig && k.Status == "open" {
 			c.st.mu.Lock()
 			c.st.KnownHits[sig]++
+			if _, ok := c.st.KnownSamples[sig]; !ok {
+				m := msg
+				if len(m) > 1200 {
+					m = m[:1200] + "…"
+				}
+				c.st.KnownSamples[sig] = m
+			}
 			c.st.mu.Unlock()
 			return true
 		}
